@@ -308,6 +308,19 @@ def checkFile (file : Bytes) : Option (Bytes × Nat × List Record) :=
 def checkFileLegacy (file : Bytes) : Option (Bytes × Nat × List Record) :=
   if (scan file).stop = .eof then some (file, (scan file).off, (scan file).recs) else none
 
+/-- `emptyFile` at byte level (first thing in Put/PutBatch): when nothing is pending (`idle`) tmp.data is deleted
+    and re-created and the write position goes back to 0; otherwise nothing changes -/
+def emptyFileBytes (idle : Bool) (file : Bytes) (off : Nat) : Bytes × Nat :=
+  if idle then ([], 0) else (file, off)
+
+/-- VARIANT (seed-C08c, not the code under test): the write position is rewound but the file is kept -/
+def emptyFileRewindOnly (idle : Bool) (file : Bytes) (off : Nat) : Bytes × Nat :=
+  if idle then (file, 0) else (file, off)
+
+/-- one `Put`/`PutBatch` of the bytes `b` at byte level: emptyFile, then write at the write position -/
+def putBytes (ef : Bool → Bytes → Nat → Bytes × Nat) (idle : Bool) (file : Bytes) (off : Nat) (b : Bytes) : Bytes × Nat :=
+  (writeAt (ef idle file off).1 (ef idle file off).2 b, (ef idle file off).2 + b.length)
+
 /-! ### abstract store behind the queue (bitcask + position index), last writer wins -/
 
 abbrev StoreKey := Nat × Bytes
